@@ -47,7 +47,8 @@ def main():
     ]
     ck.functions |= {'identifier::<String as IdentifierParser>::into_identifier', 'tokeniser::<String as Tokeniser>::tokenise',
                      'tokeniser::consume_while', 'tokeniser::match_ahead', 'tokeniser closures'}
-    units = [('ident', N, W, 'plain'), ('tok-step', N, W), ('tok-whole', nw, min(W, 2)), ('tok-digits', 20 if quick else 24), ('shapes',)] + [('conditions', n) for n in range(0, (4 if quick else 5) + 1)]
+    units = [('ident', N, W, 'plain'), ('tok-step', N, W), ('tok-whole', nw, min(W, 2)), ('tok-digits', 20 if quick else 24), ('shapes',)] + \
+        [('tok-after', pre, 2 if quick else 3) for pre in ('A\u00e9', '\u00e9', 'a \u00e9\u00e9', 'na\u00ef', '(\u00e9', '1\u00e9')] + [('conditions', n) for n in range(0, (4 if quick else 5) + 1)]
     ck.run_units(units, run_unit)
     ck.finish('symbolic execution of the textual layers over symbolic UTF-8 strings; every path must return Ok/Err')
 
@@ -186,6 +187,34 @@ def run_unit(ck, unit):
         ck.obligation('tok-whole:returns Ok|Err on every path', uni, b_or(*[r.cond() for r in panics]) if panics else False,
                       sample={'layer': 'tokenise (whole)', 'bytes<=': n, 'paths': len(results)})
         validate_tokens(ck, uni, s, results, br)
+        return
+    if kind == 'tok-after':
+        # the whole tokeniser on <concrete prefix with multi-byte characters><k symbolic bytes>: what the loop carries from
+        # one iteration to the next (a position, a column, ...) meets every continuation
+        _, prefix, k = unit
+        pb = prefix.encode('utf-8')
+        uni = engine.Universe()
+        ex = ck.new_engine(prog, uni=uni, summarise=('{closure#0}', '{closure#1}'))
+        models_chars.install(ex)
+        t = models_chars.fresh_utf8('t', k, uni, max_width=2)
+        s = S.SStr([z3.BitVecVal(c, 8) for c in pb] + list(t.bytes), t.length + len(pb), 'after')
+        fn = find_fn(prog, '::tokenise')
+        results = ex.explore(fn, [Ref(Cont([StrV(s)]), 0)])
+        for r in results:
+            ck.blocks |= r.blocks
+        panics = [r for r in results if r.kind == 'panic']
+
+        def on_sat(model, t=t, pb=pb):
+            text = pb + S.model_bytes(model, t)
+            n = br.call(cmd='tokenise', s=list(text))
+            path = ck.write_replay('tok_after_' + text.hex(), {'layer': 'tokenise', 'input_bytes': list(text), 'input': text.decode('utf-8', 'replace'),
+                                                              'native': n, 'request': {'cmd': 'tokenise', 's': list(text)}})
+            if 'panic' in n:
+                ck.replays_ok += 1
+                return ('violation', path, 'tokenise(%r) panics: %s' % (text.decode('utf-8', 'replace'), n['panic'][:160]))
+            return ('spurious', 'native tokenise(%r) does not panic' % text)
+        ck.obligation('tok-after %r:returns Ok|Err on every path' % prefix, uni, b_or(*[r.cond() for r in panics]) if panics else False,
+                      sample={'layer': 'tokenise after a prefix', 'prefix': prefix, 'bytes<=': k, 'paths': len(results)}, on_sat=on_sat)
         return
     if kind == 'tok-digits':
         # a number literal of up to D decimal digits (optionally negative): beyond the i64 range the tokeniser must
